@@ -660,6 +660,18 @@ pub fn run_verify(
         .collect();
     #[cfg(feature = "model")]
     let reference: Vec<Value> = Vec::new();
+    #[cfg(not(feature = "model"))]
+    let reference_probe: Vec<Value> = vtranscripts
+        .iter()
+        .zip(statements.iter())
+        .zip(proofs.iter())
+        .map(|((t, s), p)| match catch_unwind(AssertUnwindSafe(|| refimpl::final_probe(t, s, &p.to_bytes()))) {
+            Ok(Some(b)) => json!(b),
+            _ => Value::Null,
+        })
+        .collect();
+    #[cfg(feature = "model")]
+    let reference_probe: Vec<Value> = Vec::new();
     let actions: Vec<String> = match cfg["actions"].as_array() {
         Some(a) => a.iter().map(|v| v.as_str().unwrap().to_string()).collect(),
         None => vec![cfg["action"].as_str().unwrap_or("VerifyOnly").to_string()],
@@ -685,7 +697,7 @@ pub fn run_verify(
         match r {
             Ok(res) => {
                 let mut o = json!({"action":act,"result": err_json(&res), "events":[ev0,ev1], "logs_after":logs_after,"work":w1-w0,
-                    "reference": reference});
+                    "reference": reference, "reference_probe": reference_probe});
                 if let Ok(masks) = res {
                     o["n_results"] = json!(masks.len());
                     o["masks"] = masks_json(&masks);
